@@ -1899,7 +1899,11 @@ void ScriptThread::GetArrayKeys(Event& ev)
 {
     const ScriptVariable& array = ev.GetValue(1);
 
-    const size_t arraySize = array.arraysize();
+    // count what the iteration yields (arraysize() is -1 for NIL and 1 for every scalar)
+    size_t arraySize = 0;
+    for (ScriptVariableIterator it(array); it; ++it) {
+        ++arraySize;
+    }
 
     ScriptVariable constArray;
     // create a const array for holding all keys
@@ -1919,7 +1923,11 @@ void ScriptThread::GetArrayValues(Event& ev)
 {
     const ScriptVariable& array = ev.GetValue(1);
 
-    const size_t arraySize = array.arraysize();
+    // count what the iteration yields (arraysize() is -1 for NIL and 1 for every scalar)
+    size_t arraySize = 0;
+    for (ScriptVariableIterator it(array); it; ++it) {
+        ++arraySize;
+    }
 
     ScriptVariable constArray;
     // create a const array for holding all values
